@@ -794,5 +794,8 @@ def run(rep):
     mir = Mir(facts.mir_facts())
     j3(rep, mir)
     rep.extra["primitive_pairs"] = {"%s->%s" % k: v[0] for k, v in PAIRS.items()}
+    from .util_enum import n1
+
+    n1(rep, src)
     rep.assume("rustc accepts the tree (syn facts and MIR facts are extracted from the same files)")
     rep.assume("the reviewed classification of the 14 primitive pairs (PAIRS in qv/c12.py); a new pair is reported as UNDECIDED")
